@@ -124,6 +124,8 @@ type job struct {
 	// Flip: bit offsets of the file that are inverted (a corrupt input whose
 	// decode runs into validating readers, where options such as force matter)
 	Flip []int64 `json:"flip,omitempty"`
+	// Set: [bit offset, value] pairs: the byte at that (byte aligned) offset is overwritten
+	Set [][2]int64 `json:"set,omitempty"`
 }
 
 func (j job) flat() job { j.Chunks = nil; return j }
@@ -238,11 +240,16 @@ func runJob(j job) (h string) {
 		}
 	}()
 	data := dataOf(j.Path)
-	if len(j.Flip) > 0 {
+	if len(j.Flip) > 0 || len(j.Set) > 0 {
 		data = append([]byte(nil), data...)
 		for _, k := range j.Flip {
 			if k >= 0 && k/8 < int64(len(data)) {
 				data[k/8] ^= 0x80 >> uint(k%8)
+			}
+		}
+		for _, kv := range j.Set {
+			if kv[0] >= 0 && kv[0]%8 == 0 && kv[0]/8 < int64(len(data)) {
+				data[kv[0]/8] = byte(kv[1])
 			}
 		}
 	}
@@ -708,13 +715,16 @@ func TestOptionLeak(t *testing.T) {
 		if top == nil {
 			continue
 		}
-		var ones, others []int64
+		var ones, others, bytes8 []int64
 		fqx.Walk(top, func(v *decode.Value, depth int) {
 			if _, ok := v.V.(*decode.Compound); ok || v.RootReader != top.RootReader {
 				return
 			}
 			if s, ok := v.V.(scalar.Scalarable); ok && s.ScalarFlags().IsSynthetic() {
 				return
+			}
+			if v.Range.Len == 8 && v.Range.Start%8 == 0 {
+				bytes8 = append(bytes8, v.Range.Start)
 			}
 			switch {
 			case v.Range.Len == 1:
@@ -748,6 +758,17 @@ func TestOptionLeak(t *testing.T) {
 			plainB = append(plainB, b)
 			b.Force = true
 			forcedB = append(forcedB, b)
+		}
+		// whole-byte fields (type tags, opcodes, kinds) set to other small values:
+		// reaches the branches of a decoder the sample itself does not take
+		for _, k := range pick(bytes8, harness.N(4, 64), 3) {
+			for _, val := range []int64{0, 1, 2, 255} {
+				b := fj
+				b.Set = [][2]int64{{k, val}}
+				plainB = append(plainB, b)
+				b.Force = true
+				forcedB = append(forcedB, b)
+			}
 		}
 		aForced, aPlain := fj, fj
 		aForced.Force = true
